@@ -9,7 +9,7 @@ use std::sync::mpsc::{self, Receiver, RecvTimeoutError};
 use std::thread::JoinHandle;
 use std::time::Duration;
 
-pub const WATCHDOG: Duration = Duration::from_secs(20);
+pub const WATCHDOG: Duration = Duration::from_secs(60);
 
 enum Msg {
     Line(String),
